@@ -323,6 +323,25 @@ Proof. induction a; cbn; auto. Qed.
 Lemma has_width_app a b : has_width (a ++ b) -> has_width a /\ has_width b.
 Proof. unfold has_width. rewrite Forall_app. auto. Qed.
 
+(* the zero-width run taken with an overflowing character: a prefix of the rest, of width 0 *)
+Lemma take_zw_split s : exists r, s = take_zw s ++ r.
+Proof.
+  induction s as [|c s [r IH]]; cbn [take_zw].
+  - exists []. reflexivity.
+  - destruct (cw c) as [[|p]|].
+    + exists r. cbn [app]. f_equal. exact IH.
+    + exists (c :: s). reflexivity.
+    + exists (c :: s). reflexivity.
+Qed.
+
+Lemma swidth_take_zw s : swidth (take_zw s) = 0.
+Proof.
+  induction s as [|c s IH]; cbn [take_zw].
+  - reflexivity.
+  - destruct (cw c) as [[|p]|] eqn:E; try reflexivity.
+    rewrite swidth_cons, IH. unfold cw0. rewrite E. reflexivity.
+Qed.
+
 Lemma hw_scan_spec ovf line0 :
   tlen_ line0 = tl_width_raw line0 ->
   forall s first taken_rev lineleft wpos,
@@ -356,8 +375,10 @@ Proof.
       * rewrite (tl_width_ok _ Hl). cbn [bind]. rewrite (Hf1 eq_refl).
         destruct (N.eqb_spec (tl_width_raw line0) 0) as [Ez|Enz].
         -- destruct ovf; cbn [good]; [|reflexivity].
-           exists [c], s. split; [reflexivity|]. split; [reflexivity|].
-           split; [rewrite swidth_cons, swidth_nil; lia|].
+           destruct (take_zw_split s) as [r Er].
+           exists (c :: take_zw s), r. split; [cbn [app]; f_equal; exact Er|].
+           split; [reflexivity|].
+           split; [rewrite swidth_cons, swidth_take_zw; lia|].
            right. repeat split; auto. discriminate.
         -- cbn [good]. exists [], (c :: s). split; [reflexivity|]. split; [reflexivity|].
            rewrite swidth_nil. split; [lia|]. left. split; [lia|]. intros _. exact Enz.
